@@ -101,13 +101,23 @@ def rule_walkers(ck, prog, S):
                 eos = [pol for a, pol in ps.facts if not isinstance(pol, tuple) and a.k == "CallExpr" and a.get("callee") == "scpiLex_IsEos"]
                 if not eos or eos[-1] is not True:
                     nomore_bad.append(ps)
-                # an end of list follows an entry: NO_MORE decided by the walker itself (not handed up from the range parser)
-                # needs an entry that was parsed and found OK on the same path
-                if fr[0] == "const":
+                # an end of list follows an entry: NO_MORE decided by the walker (itself or through a helper of its own, not
+                # handed up from the range parser) needs an entry that was parsed and found OK on the same path
+                own = fr[0] == "const" or (fr[0] == "call" and fr[1] is not None and fr[1].get("callee") != rname)
+                if own:
                     n_nomore_const += 1
-                    neq = [pol for a, pol in ps.facts if not isinstance(pol, tuple) and a.k == "BinaryOperator" and
-                           a.get("op") == "!=" and a.child(0).strip_all_casts().get("path") == "res" and C.const_of(a.child(1)) == OK]
-                    if last < 0 or not neq or neq[-1] is not False:
+                    entry_ok = None
+                    seen_range = False
+                    for ev in ps.events:
+                        if ev[0] == "call" and ev[1].get("callee") == rname:
+                            seen_range, entry_ok = True, None
+                        elif ev[0] == "branch" and seen_range and entry_ok is None and not isinstance(ev[2], tuple):
+                            a = ev[1]
+                            l_ = a.child(0).strip_all_casts() if a.k == "BinaryOperator" else None
+                            if a.k == "BinaryOperator" and a.get("op") in ("!=", "==") and C.const_of(a.child(1)) == OK and \
+                                    (l_.get("path") == "res" or (l_.k == "CallExpr" and l_.get("callee") == rname)):
+                                entry_ok = (ev[2] is False) if a["op"] == "!=" else (ev[2] is True)
+                    if not entry_ok:
                         nomore_empty.append(ps)
         st = K.site(f, "delimiter-after-requested-entry", 0)
         if ok_paths == 0:
